@@ -19,7 +19,7 @@ RULE = (
     "3 label kinds; oracle = algebraic laws (shape, rank of [1|C], identity full coding, coefficient = inverse, zero "
     "column sums, dense==sparse, metadata consistency) AND equality with the from-scratch R/MASS/patsy reference "
     "(vf/ref/contrasts.py). encode (generated): data vectors over the levels with absent levels, out-of-level values "
-    "and nulls, explicit levels= lists, reduced_rank, 3 outputs, called directly and through model_matrix('C(x, contr...)'); "
+    "and nulls, explicit levels= lists, reduced_rank, 3 outputs, called directly and through model_matrix('C(x, contr...)') incl. the patsy spellings Treatment/Sum/Helmert/Diff/Poly and the two-sided form 'C(..) ~ C(..)' (full then reduced coding of one factor); "
     "oracle = indicator(data, levels) @ reference coding, names, reference level. Non-trivial = n >= 2; distinct by cell / case."
 )
 ASSUMPTIONS = [
@@ -125,6 +125,14 @@ def check_cell(case) -> Outcome:
             out.fail("drop-field-none-when-reduced", f"{spec}", **feat)
         if c.get_spans_intercept(levels, reduced_rank=True) or not c.get_spans_intercept(levels, reduced_rank=False):
             out.fail("spans-intercept-flags", f"{spec} n={n}", **feat)
+    if spec["kind"] == "treatment":
+        # the patsy-compatible constructor builds the same contrast
+        from formulaic.transforms.patsy_compat import Treatment
+
+        t = Treatment(reference=spec["base"]) if "base" in spec else Treatment()
+        At = dense(t.get_coding_matrix(levels, reduced_rank=True, sparse=sparse)).reshape(n, -1)
+        if At.shape != R.shape or not np.allclose(At, R, atol=tol) or list(t.get_coding_column_names(levels, reduced_rank=True)) != RC.column_names(spec, levels):
+            out.fail("patsy-treatment-shim", f"Treatment(reference={spec.get('base')!r}) on {levels}:\n{At}\nexpected\n{R}", **feat)
     # the same contrast instance applied to a second level list of the same length (rotated): results must
     # depend on the levels given, not on an earlier call
     if n >= 2:
@@ -138,6 +146,16 @@ def check_cell(case) -> Outcome:
         K2 = dense(c.get_coefficient_matrix(rot, reduced_rank=True, sparse=sparse)).reshape(n, n)
         if np.linalg.matrix_rank(np.hstack([np.ones((n, 1)), R2])) == n and not np.allclose(K2 @ np.hstack([np.ones((n, 1)), R2]), np.eye(n), atol=1e-8):
             out.fail("instance-reuse-second-level-list", f"{spec} n={n}: coefficient matrix for {rot}", **feat)
+    # ... and to level lists of another length (one fewer, then one more)
+    if "scores" not in spec:
+        for n3 in (n - 1, n + 1):
+            lv3 = labels(n3, lk)
+            if n3 < 1 or ("base" in spec and spec["base"] not in lv3):
+                continue
+            A3 = dense(c.get_coding_matrix(lv3, reduced_rank=True, sparse=sparse)).reshape(n3, -1)
+            R3 = RC.coding(spec, n3, lv3)
+            if A3.shape != R3.shape or not np.allclose(A3, R3, atol=tol):
+                out.fail("instance-reuse-other-level-count", f"{spec}: after n={n}, coding for {lv3} is\n{A3}\nexpected\n{R3}", **feat)
     st_ = ContrastsState(c, levels)
     if not np.allclose(dense(st_.get_coding_matrix(True, sparse)).reshape(n, -1), A, atol=0):
         out.fail("state-coding-matrix", f"{spec} n={n}", **feat)
@@ -227,6 +245,16 @@ def check_encode(case) -> Outcome:
     # through the formula interface (no nulls / extras here: those belong to C06 / C09)
     if not has_null and not has_extra and data:
         cexpr = RC.expr(spec)
+        sp = case.get("spelling", 0)
+        if sp and spec["kind"] != "SAS":
+            # the patsy-compatible spellings of the same built-in contrasts
+            inner = cexpr[cexpr.index("(") + 1 : -1]
+            if spec["kind"] == "treatment":
+                b = spec.get("base")
+                cexpr = "Treatment()" if b is None else (f"Treatment(reference={b!r})" if sp == 1 else f"Treatment({b!r})")
+            else:
+                cexpr = {"sum": "Sum", "helmert": "Helmert", "diff": "Diff", "poly": "Poly"}[spec["kind"]] + f"({inner})"
+            out.label("patsy-spelling")
         lv = "" if levels_arg is None else f", levels={levels_arg!r}"
         fexpr = f"C(x, {cexpr}{lv})"
         formula = fexpr if reduced else f"{fexpr} - 1"
@@ -244,6 +272,14 @@ def check_encode(case) -> Outcome:
             out.fail("formula-encoding-values", f"{formula!r} data={data}\n got {got}\n exp {exp2}", **feat)
         if list(mm.model_spec.column_names) != names2:
             out.fail("formula-encoding-names", f"{formula!r}: {list(mm.model_spec.column_names)} vs {names2}", **feat)
+        if reduced:
+            # the same factor needed with its full coding (left-hand side: no intercept) and then with the reduced one
+            mm2 = model_matrix(f"{fexpr} ~ {fexpr}", df, output=output)
+            gl, gr = dense(mm2.lhs).reshape(len(data), -1), dense(mm2.rhs).reshape(len(data), -1)
+            if gl.shape != I.shape or not np.allclose(gl, I, atol=1e-8) or list(mm2.lhs.model_spec.column_names) != [f"{fexpr}[{l}]" for l in used]:
+                out.fail("formula-two-sided-full", f"'{fexpr} ~ {fexpr}' data={data}: lhs {list(mm2.lhs.model_spec.column_names)}\n{gl}\nexpected indicators\n{I}", **feat)
+            if gr.shape != exp2.shape or not np.allclose(gr, exp2, atol=1e-8) or list(mm2.rhs.model_spec.column_names) != names2:
+                out.fail("formula-two-sided-reduced", f"'{fexpr} ~ {fexpr}' data={data}: rhs {list(mm2.rhs.model_spec.column_names)}\n{gr}\nexpected\n{exp2}", **feat)
     return out
 
 
@@ -256,6 +292,8 @@ def gen_encode(nmax):
         spec = {"kind": kind}
         if kind in ("treatment", "SAS") and draw(st.booleans()):
             spec["base"] = draw(st.integers(0, n - 1))
+            if lk == "zero" and n >= 2 and draw(st.booleans()):
+                spec["base"] = 1  # the falsy label 0, not in first position
         if kind == "helmert":
             spec["reverse"] = draw(st.booleans())
             spec["scale"] = draw(st.booleans())
@@ -264,13 +302,16 @@ def gen_encode(nmax):
         if kind == "poly" and draw(st.booleans()):
             sc = draw(st.lists(st.integers(1, 5), min_size=n, max_size=n))
             spec["scores"] = [sum(sc[: i + 1]) for i in range(n)]
-        data = draw(st.lists(st.one_of(st.integers(0, n - 1), st.integers(0, n - 1), st.integers(0, n), st.none()), min_size=1, max_size=12))
+        clean = draw(st.booleans())  # no nulls / out-of-level values: the formula interface is exercised too
+        el = st.integers(0, n - 1) if clean else st.one_of(st.integers(0, n - 1), st.integers(0, n - 1), st.integers(0, n), st.none())
+        data = draw(st.lists(el, min_size=1, max_size=12))
         if all(d is None for d in data):
             data[0] = 0
         lev = draw(st.one_of(st.none(), st.permutations(list(range(n))), st.permutations(list(range(n))).map(lambda p: p[: max(1, len(p) - 1)])))
         return {
             "spec": spec, "labels": lk, "n": n, "data": data, "levels": None if lev is None else list(lev),
             "reduced": draw(st.booleans()), "output": draw(st.sampled_from(["pandas", "numpy", "sparse"])),
+            "spelling": draw(st.sampled_from([0, 0, 1, 2])),
         }
 
     return strat()
